@@ -77,6 +77,25 @@ pub fn fp_bytes(b: &[u8]) -> u64 {
     mix(h ^ (b.len() as u64).wrapping_mul(0x9e3779b97f4a7c15))
 }
 
+/// Fingerprint of a value's Debug rendering, hashed as it is produced (nothing is allocated).
+pub fn fp_debug<T: std::fmt::Debug>(x: &T) -> u64 {
+    struct H(u64, u64);
+    impl std::fmt::Write for H {
+        fn write_str(&mut self, s: &str) -> std::fmt::Result {
+            for &b in s.as_bytes() {
+                self.0 ^= b as u64;
+                self.0 = self.0.wrapping_mul(0x100000001b3);
+            }
+            self.1 += s.len() as u64;
+            Ok(())
+        }
+    }
+    use std::fmt::Write;
+    let mut h = H(0xcbf29ce484222325, 0);
+    let _ = write!(h, "{:?}", x);
+    mix(h.0 ^ h.1.wrapping_mul(0x9e3779b97f4a7c15))
+}
+
 #[inline]
 pub fn fp_combine(a: u64, b: u64) -> u64 {
     mix(a.rotate_left(23) ^ b.wrapping_mul(0x9e3779b97f4a7c15))
